@@ -177,6 +177,12 @@ func LoadProgram(repo, mirror string) (*Program, error) {
 		// the fields it mentions changed) is stale: drop it, record it, and try again
 		stale := staleOwners(err.Error(), synth, specIndex)
 		unused := unusedImports(err.Error())
+		if os.Getenv("VERIF_DEBUG_STALE") != "" {
+			fmt.Fprintln(os.Stderr, "type errors in the synthetic specification files:", firstLines(err.Error(), 12))
+			for short, src := range synth {
+				os.WriteFile("/tmp/synth-debug-"+sanitize(short)+".go", []byte(src), 0o644)
+			}
+		}
 		if len(stale) == 0 && len(unused) == 0 {
 			break
 		}
@@ -353,6 +359,7 @@ func sortedStrings(a []string) bool { panic(0) }
 func permOf[T any](a, b []T) bool { panic(0) }
 func fst[A, B any](a A, b B) A { return a }
 func snd[A, B any](a A, b B) B { return b }
+func reached(site string) bool { panic(0) }
 `
 
 // qualifier used when printing types into the synthetic file of package pkg
